@@ -53,7 +53,7 @@ def run(ck: Check) -> None:
             payload = gen.root_md(ks[:1], 1, [gen.key(7)], 1, version=rng.randint(1, 5))
             env = gen.envelope(payload)
             gen.sign_env(env, ks, rng.random() < 0.5, rng)
-        ops = [rng.choice(["write", "load", "sign-raw", "sign-gpg", "write", "load", "retype-write", "samesize-write", "load-mutate-load", "withdraw-signature-write"]) for _ in range(rng.randint(3, 10))]
+        ops = [rng.choice(["write", "load", "sign-raw", "sign-gpg", "write", "load", "retype-write", "samesize-write", "load-mutate-load", "withdraw-signature-write", "over-foreign-file", "relative-name"]) for _ in range(rng.randint(3, 10))]
         if i % 5 == 1:
             ops.insert(rng.randrange(len(ops) + 1), "sign-gpg")
         mem = copy.deepcopy(env)
@@ -114,6 +114,60 @@ def run(ck: Check) -> None:
                     if open(fn, "rb").read() != gen.oracle_bytes(mem) or not proto.deep_equal(back, mem):
                         ck.violation("writing an envelope with fewer signatures over a file that had more did not store the envelope given (withdrawn signatures came back)",
                                      {"value": proto.enc(mem)[:800], "loaded": proto.enc(back)[:800]}, "withdrawn-signature-returns")
+                        ok = False
+                    ck.evaluations += 1
+                    ck.count("fileop:" + op)
+                    continue
+                if op == "over-foreign-file":
+                    # the path already holds a file some other tool left there (final newline, CRLF, pretty-printed, BOM, longer, shorter, empty, not
+                    # JSON at all): what the library writes is the canonical form of the value written, whatever was there before
+                    import json as _json
+                    canon_now = gen.oracle_bytes(mem)
+                    foreign = rng.choice([canon_now + b"\n", canon_now + b"\r\n", canon_now + b"\n\n", b"\xef\xbb\xbf" + canon_now, canon_now.replace(b"\n", b"\r\n"),
+                                          _json.dumps(mem, ensure_ascii=True).encode() + b"\n", b"", b"\n", b" \n", b"{}\n", b"not json\n", canon_now + b" " * 100 + b"\n",
+                                          canon_now[:-1] + b"\n}"])
+                    with open(fn, "wb") as f:
+                        f.write(foreign)
+                    impl.common.write_metadata_to_file(mem, fn)
+                    on_disk = True
+                    ck.oracle_checks += 1
+                    if open(fn, "rb").read() != canon_now:
+                        ck.violation("writing over a file that another tool left at the path (final newline, CRLF, BOM, other layout ...) does not leave the canonical form of the value written",
+                                     {"value": proto.enc(mem)[:600], "previous_content_tail": foreign[-12:].hex(), "previous_len": len(foreign)}, "write-over-foreign-file")
+                        ok = False
+                    ck.evaluations += 1
+                    ck.count("fileop:" + op)
+                    continue
+                if op == "relative-name":
+                    # a relative name means the same file to the writer and to the reader, wherever the process has moved to since the library was imported
+                    sub = os.path.join(d, "elsewhere-%d" % rng.randrange(3))
+                    os.makedirs(sub, exist_ok=True)
+                    rel = rng.choice(["rel.json", "./rel.json", "sub/../rel.json"])
+                    os.makedirs(os.path.join(sub, "sub"), exist_ok=True)
+                    old_cwd = os.getcwd()
+                    os.chdir(sub)
+                    try:
+                        for stale in ("rel.json",):
+                            if os.path.exists(stale):
+                                os.unlink(stale)
+                        impl.common.write_metadata_to_file(mem, rel)
+                        there = open(os.path.join(sub, "rel.json"), "rb").read() if os.path.exists(os.path.join(sub, "rel.json")) else None
+                        back = impl.common.load_metadata_from_file(rel)
+                        if isinstance(mem, dict) and isinstance(mem.get("signatures"), dict):
+                            k = rng.choice(ks)
+                            loaded = impl.common.load_metadata_from_file(rel)
+                            impl.signing.sign_signable(loaded, impl.common.PrivateKey.from_bytes(k.seed))
+                            impl.common.write_metadata_to_file(loaded, rel)
+                            again = impl.common.load_metadata_from_file(rel)
+                            signed_ok = k.hex in again.get("signatures", {})
+                        else:
+                            signed_ok = True
+                    finally:
+                        os.chdir(old_cwd)
+                    ck.oracle_checks += 1
+                    if there != gen.oracle_bytes(mem) or not proto.deep_equal(back, mem) or not signed_ok:
+                        ck.violation("write then load under a relative file name (after the process changed its working directory) does not give the value back / does not reach the same file",
+                                     {"value": proto.enc(mem)[:600], "name": rel, "file_found": there is not None, "signature_stored": signed_ok}, "relative-name")
                         ok = False
                     ck.evaluations += 1
                     ck.count("fileop:" + op)
